@@ -22,7 +22,10 @@ CONSTANTS Cfgs,      \* indices into fixtures.json explored in this run
           Depth,     \* forging depth
           MaxVotes,  \* bound on the length of the vote list
           GenMode,   \* "none" | "all" : print every description
-          UseDev     \* TRUE: tolerate the known deviations (known.json); FALSE: Dev = {}
+          Sample,    \* 8: print every description; r in 0..7: of the depth >= 2 descriptions that are tempting but rejected by the
+                     \* design layer (the bulk, of which the check drives a sample anyway) print those whose structural hash is r
+          UseDev,    \* TRUE: tolerate the known deviations (known.json); FALSE: Dev = {}
+          Side       \* "all" | "cert": only the forging steps on the certificate (deep exploration of the certificate branch)
 
 Fixtures == JsonDeserialize("fixtures.json")
 KnownJson == JsonDeserialize("known.json")
@@ -43,12 +46,20 @@ HonestPropOf(G, p, T, i) == [p |-> p, ci |-> i, cs |-> StepProposal, cd |-> 1, p
 HonestVote(v, T, i) == HonestVoteOf(F, v, T, i)
 HonestProp(p, T, i) == HonestPropOf(F, p, T, i)
 StrangerVote(i) == [v |-> NV(F) + 1, ci |-> i, cs |-> StepPrecommit, cd |-> 1, pb |-> "ok", j |-> 1, sb |-> 1, sr |-> 1, si |-> i]
+\* certificate votes: step Certificate, the certificate look-back seed, seat count with the certificate set's stake
+HonestCertOf(G, v, T, i) == [v |-> v, ci |-> i, cs |-> StepCert, cd |-> 3, pb |-> "ok",
+                             j |-> Max0(G.cseat[v][ThIdx(G, T)][i][StepCert][3]), sb |-> 1, sr |-> 1, si |-> i, ls |-> 1]
+HonestCert(v, T, i) == HonestCertOf(F, v, T, i)
+StrangerCert(i) == [v |-> NV(F) + 1, ci |-> i, cs |-> StepCert, cd |-> 3, pb |-> "ok", j |-> 1, sb |-> 1, sr |-> 1, si |-> i, ls |-> 1]
 
 Init == \E c \in Cfgs : LET G == Fixtures[c] IN
         h = [cfg |-> c, declV |-> G.protoV, declP |-> G.protoP, pidx |-> 1, vidx |-> 1,
              prop |-> HonestPropOf(G, G.prop, G.protoP, 1),
              votes |-> [n \in DOMAIN G.voters |-> HonestVoteOf(G, G.voters[n], G.protoV, 1)],
-             agg |-> "ok", d |-> 0]
+             agg |-> "ok",
+             cf |-> IF G.certRound THEN "list" ELSE "std",
+             cvotes |-> IF G.certRound THEN [n \in DOMAIN G.cvoters |-> HonestCertOf(G, G.cvoters[n], G.protoC, 1)] ELSE <<>>,
+             cagg |-> "ok", declC |-> G.protoC, cfidx |-> 1, d |-> 0]
 
 Forge(new) == /\ h.d < (IF h.cfg \in Deep THEN Depth ELSE Depth - 1)
               /\ LET x == new IN h' = [x EXCEPT !.d = h.d + 1]
@@ -125,8 +136,11 @@ DeclareP == \E T \in ThSet \ {h.declP}, adapt \in BOOLEAN :
 SetVidx == \E redo \in BOOLEAN :
           LET i == OtherIdx(h.vidx)
               vs == h.votes
-              again == [n \in DOMAIN vs |-> IF Member(F, vs[n].v) THEN HonestVote(vs[n].v, h.declV, i) ELSE StrangerVote(i)] IN
-          Forge([h EXCEPT !.vidx = i, !.votes = IF redo THEN again ELSE vs])
+              cs == h.cvotes
+              again == [n \in DOMAIN vs |-> IF Member(F, vs[n].v) THEN HonestVote(vs[n].v, h.declV, i) ELSE StrangerVote(i)]
+              cagain == [n \in DOMAIN cs |-> IF Member(F, cs[n].v) THEN HonestCert(cs[n].v, h.declC, i) ELSE StrangerCert(i)] IN
+          Forge([h EXCEPT !.vidx = i, !.votes = IF redo THEN again ELSE vs,
+                          !.cvotes = IF redo THEN cagain ELSE cs, !.cfidx = IF redo THEN i ELSE h.cfidx])
 SetPidx == \E redo \in BOOLEAN :
           LET i == OtherIdx(h.pidx) IN
           Forge([h EXCEPT !.pidx = i, !.prop = IF redo THEN HonestProp(h.prop.p, h.declP, i) ELSE h.prop])
@@ -143,23 +157,103 @@ PropAlter == \E what \in {"idx", "step", "seed", "foreign", "corrupt"} :
                      [] what = "seed" -> [x EXCEPT !.cd = 2]
                      [] OTHER         -> [x EXCEPT !.pb = what]])
 
-Next == \/ Drop \/ Dup \/ Repeat \/ Add \/ AlterCred \/ Inflate \/ InflateMax \/ Resign \/ ReplaySet \/ ResignSet \/ Reorder \/ CorruptAgg
-        \/ DeclareV \/ DeclareP \/ SetVidx \/ SetPidx
-        \/ SwapProposer \/ BadPriority \/ PropInflate \/ PropAlter
+\* ---------------------------------------------------------------- forging steps on the certificate (certificate rounds)
+CertList == F.certRound /\ h.cf = "list"
+CDrop == \E n \in DOMAIN h.cvotes : CertList /\ Forge([h EXCEPT !.cvotes = Remove(h.cvotes, n)])
+CDup == \E n \in DOMAIN h.cvotes, twice \in BOOLEAN :
+          /\ CertList /\ Len(h.cvotes) < MaxVotes
+          /\ Forge([h EXCEPT !.cvotes = Append(h.cvotes, IF twice THEN h.cvotes[n] ELSE [h.cvotes[n] EXCEPT !.sb = 0])])
+CRepeat == \E n \in DOMAIN h.cvotes, k \in 2..MaxVotes : CertList /\ Forge([h EXCEPT !.cvotes = [m \in 1..k |-> h.cvotes[n]]])
+\* the certificate vote of any validator (entitled, offline or house in the CERTIFICATE set, entitled only for precommits) or a stranger
+CAdd == \E v \in 1..NV(F) + 1 :
+          /\ CertList /\ Len(h.cvotes) < MaxVotes
+          /\ \A n \in DOMAIN h.cvotes : h.cvotes[n].v # v
+          /\ Forge([h EXCEPT !.cvotes = Append(h.cvotes, IF Member(F, v) THEN HonestCert(v, h.declC, h.vidx) ELSE StrangerCert(h.vidx))])
+CAlterCred == \E n \in DOMAIN h.cvotes, what \in {"idx", "step", "seed", "seed2", "foreign", "corrupt"} :
+          LET x == h.cvotes[n] IN
+          /\ CertList
+          /\ Forge([h EXCEPT !.cvotes[n] =
+                   CASE what = "idx"   -> [x EXCEPT !.ci = OtherIdx(x.ci)]
+                     [] what = "step"  -> [x EXCEPT !.cs = StepPrecommit]
+                     [] what = "seed"  -> [x EXCEPT !.cd = 1]           \* the precommit look-back seed
+                     [] what = "seed2" -> [x EXCEPT !.cd = 2]
+                     [] OTHER          -> [x EXCEPT !.pb = what]])
+CInflate == \E n \in DOMAIN h.cvotes : CertList /\ Forge([h EXCEPT !.cvotes[n].j = h.cvotes[n].j + 1])
+CInflateMax == \E n \in DOMAIN h.cvotes : /\ CertList /\ Member(F, h.cvotes[n].v) /\ h.cvotes[n].j < F.cvals[h.cvotes[n].v].stake
+                                           /\ Forge([h EXCEPT !.cvotes[n].j = F.cvals[h.cvotes[n].v].stake])
+CResign == \E n \in DOMAIN h.cvotes, what \in {"blk", "rnd", "idx", "none"} :
+          /\ CertList /\ h.cvotes[n].sb # 0
+          /\ LET x == h.cvotes[n] IN
+             Forge([h EXCEPT !.cvotes[n] =
+                   CASE what = "blk" -> [x EXCEPT !.sb = 2]
+                     [] what = "rnd" -> [x EXCEPT !.sr = 2]
+                     [] what = "idx" -> [x EXCEPT !.si = OtherIdx(x.si)]
+                     [] OTHER        -> [x EXCEPT !.sb = 0]])
+\* replay a WHOLE certificate vote set of another index / step / look-back seed, with the seat counts those credentials really have
+CReplaySet == \E what \in {"idx", "step", "seed"} :
+          LET cs == h.cvotes
+              alt(x) == CASE what = "idx"  -> [x EXCEPT !.ci = OtherIdx(x.ci)]
+                          [] what = "step" -> [x EXCEPT !.cs = StepPrecommit]
+                          [] OTHER         -> [x EXCEPT !.cd = 1]
+              seats(x) == IF Member(F, x.v) THEN [x EXCEPT !.j = Max0(F.cseat[x.v][ThIdx(F, h.declC)][x.ci][x.cs][x.cd])] ELSE x IN
+          /\ CertList /\ cs # <<>>
+          /\ Forge([h EXCEPT !.cvotes = [n \in DOMAIN cs |-> seats(alt(cs[n]))]])
+\* present the header's own precommit votes (same signatures: the signed payload does not contain the vote kind) as certificates
+CFromPrecommits == /\ CertList /\ h.votes # <<>>
+                   /\ LET vs == h.votes IN
+                      Forge([h EXCEPT !.cvotes = [n \in DOMAIN vs |-> [v |-> vs[n].v, ci |-> vs[n].ci, cs |-> vs[n].cs, cd |-> vs[n].cd, pb |-> vs[n].pb,
+                                                                      j |-> vs[n].j, sb |-> vs[n].sb, sr |-> vs[n].sr, si |-> vs[n].si, ls |-> 1]]])
+\* certificate votes produced against the WRONG look-back set: list indices and stakes of the stake look-back set
+CFromStakeSet == /\ CertList /\ h.cvotes # <<>>
+                 /\ LET cs == h.cvotes IN
+                    Forge([h EXCEPT !.cvotes = [n \in DOMAIN cs |-> IF Member(F, cs[n].v)
+                                                   THEN [cs[n] EXCEPT !.ls = 2, !.j = Max0(F.seat[cs[n].v][ThIdx(F, h.declC)][cs[n].ci][StepCert][3])]
+                                                   ELSE cs[n]]])
+\* the certificate look-back header of the chain declares another CertValThreshold; the voters adapt or keep their claims
+DeclareC == \E T \in ThSet \ {h.declC}, adapt \in BOOLEAN :
+          LET cs == h.cvotes
+              adapted == [n \in DOMAIN cs |-> IF Member(F, cs[n].v)
+                                                THEN [cs[n] EXCEPT !.j = Max0(F.cseat[cs[n].v][ThIdx(F, T)][h.vidx][StepCert][3])] ELSE cs[n]] IN
+          /\ F.certRound
+          /\ Forge([h EXCEPT !.declC = T, !.cvotes = IF adapt THEN adapted ELSE cs])
+CCorruptAgg == \E a \in {"flip", "unrelated"} : CertList /\ h.cagg = "ok" /\ Forge([h EXCEPT !.cagg = a])
+\* no Certificate field at all / an empty certificate list / another round index inside the Certificate field
+COmit == CertList /\ Forge([h EXCEPT !.cf = "absent"])
+CEmpty == CertList /\ h.cvotes # <<>> /\ Forge([h EXCEPT !.cvotes = <<>>])
+SetCfIdx == CertList /\ Forge([h EXCEPT !.cfidx = OtherIdx(h.cfidx)])
+\* plain rounds: header.Certificate is not consulted, whatever it contains
+JunkCert == \E c \in {"junk", "absent"} : ~F.certRound /\ h.cf = "std" /\ Forge([h EXCEPT !.cf = c])
+
+NextCert == \/ CDrop \/ CDup \/ CRepeat \/ CAdd \/ CAlterCred \/ CReplaySet \/ CInflate \/ CInflateMax \/ CResign \/ CFromPrecommits \/ CFromStakeSet
+            \/ DeclareC \/ CCorruptAgg \/ COmit \/ CEmpty \/ SetCfIdx \/ JunkCert
+NextPre == \/ Drop \/ Dup \/ Repeat \/ Add \/ AlterCred \/ Inflate \/ InflateMax \/ Resign \/ ReplaySet \/ ResignSet \/ Reorder \/ CorruptAgg
+           \/ DeclareV \/ DeclareP \/ SetVidx \/ SetPidx
+           \/ SwapProposer \/ BadPriority \/ PropInflate \/ PropAlter
+Next == NextCert \/ (Side = "all" /\ NextPre)
 Spec == Init /\ [][Next]_vars
 
 \* ---------------------------------------------------------------- M: design |= property, up to the named deviations
 Unexplained == { f \in Fail(F, h, Dev) : FailSig(f) \notin Dev }
-Cex == PrintT("@@J " \o ToJson([kind |-> "CEX", h |-> h, fail |-> Unexplained])) /\ FALSE
-Safe == CodeAccepts(F, h) => (Unexplained = {} \/ Cex)
+UnexplainedAC == { f \in FailAC(F, h, Dev) : FailSig(f) \notin Dev }
+Cex(fs) == PrintT("@@J " \o ToJson([kind |-> "CEX", h |-> h, fail |-> fs])) /\ FALSE
+Safe == /\ CodeAccepts(F, h) => (Unexplained = {} \/ Cex(Unexplained))
+        /\ CodeAcceptsAC(F, h) => (UnexplainedAC = {} \/ Cex(UnexplainedAC))
 \* sanity of the two layers: an entitled header that the forger did not damage is accepted
-HonestAccepted == (h.d = 0) => (CodeAccepts(F, h) /\ Entitled(F, h))
+HonestAccepted == (h.d = 0) => (CodeAccepts(F, h) /\ Entitled(F, h) /\ (F.certRound => (CodeAcceptsAC(F, h) /\ AcEntitled(F, h))))
 \* the property layer alone: whatever is entitled has no failing clause
-EntitledNoFail == Entitled(F, h) <=> (Fail(F, h, Dev) = {})
+EntitledNoFail == /\ Entitled(F, h) <=> (Fail(F, h, Dev) = {})
+                  /\ F.certRound => (AcEntitled(F, h) <=> (FailAC(F, h, Dev) = {}))
 
 \* ---------------------------------------------------------------- G1
-Tempting == Claimed(h) >= (IF Quorum(h.declV) < Quorum(F.protoV) THEN Quorum(h.declV) ELSE Quorum(F.protoV))
-Leaf == (GenMode = "all") =>
+Tempting == TemptingX(VX(F, h, "pre")) /\ (F.certRound => (h.cf = "list" /\ TemptingX(VX(F, h, "cert"))))
+\* a cheap structural hash of a description (TLC has no hash function): only used to thin out the printed bulk
+PH(x) == (SumSeq([n \in DOMAIN x.votes |-> (n + 1) * (x.votes[n].j + 3 * x.votes[n].v + 5 * x.votes[n].ci + 7 * x.votes[n].cs + 11 * x.votes[n].sb + x.votes[n].si)])
+          + SumSeq([n \in DOMAIN x.cvotes |-> (n + 2) * (x.cvotes[n].j + 3 * x.cvotes[n].v + 5 * x.cvotes[n].ci + 7 * x.cvotes[n].cs + 11 * x.cvotes[n].sb + x.cvotes[n].ls)])
+          + x.declV + 3 * x.declP + 5 * x.declC + x.pidx + 2 * x.vidx + x.prop.j + 3 * x.prop.p + Len(x.votes) + 2 * Len(x.cvotes)) % 8
+Printed == Sample = 8 \/ h.d <= 1 \/ ~Tempting \/ CodeAccepts(F, h) \/ CodeAcceptsAC(F, h) \/ PH(h) = Sample
+Leaf == (GenMode = "all" /\ Printed) =>
           PrintT("@@J " \o ToJson([kind |-> "B", h |-> h, ca |-> CodeAccepts(F, h), en |-> Entitled(F, h), tp |-> Tempting,
-                                   cl |-> Present(F, h) \cup { "p:" \o c : c \in PLab(F, h) }]))
+                                   cac |-> CodeAcceptsAC(F, h), enac |-> (F.certRound /\ AcEntitled(F, h)),
+                                   cl |-> Present(F, VX(F, h, "pre")) \cup { "p:" \o c : c \in PLab(F, h) }
+                                          \cup (IF F.certRound THEN { "c:" \o c : c \in Present(F, VX(F, h, "cert")) } \cup {"c:" \o h.cf} ELSE {h.cf})]))
 =============================================================================
